@@ -3,6 +3,7 @@
 package props
 
 import (
+	"runtime"
 	"fmt"
 	"strings"
 	"testing"
@@ -80,7 +81,7 @@ func c19RecipeLadder(c *ScaleCase) (msg string, series []uint64) {
 	if c.Recipe.Edges != "later" {
 		sizes = append(sizes, 40)
 	}
-	var prev uint64
+	var prev, prevAlloc uint64
 	for i, n := range sizes {
 		sm, err := measure(b, w, recipeDoc(c.Recipe, n))
 		if capped, ok := err.(errStepCap); ok {
@@ -91,6 +92,9 @@ func c19RecipeLadder(c *ScaleCase) (msg string, series []uint64) {
 		}
 		total := sm.validate + sm.plan + sm.exec
 		series = append(series, total)
+		if m := allocGrowth(&prevAlloc, sm.alloc, i > 0); m != "" {
+			return fmt.Sprintf("recipe %+v between n=%d and n=%d: %s\n  document at n=4: %s", *c.Recipe, sizes[max(i-1, 0)], n, m, recipeDoc(c.Recipe, 4)), series
+		}
 		if sm.reexec > 0 {
 			return fmt.Sprintf("recipe %+v at n=%d: executing the same plan a second time did %d planning steps: runtime types that were already encountered are planned again", *c.Recipe, n, sm.reexec), series
 		}
@@ -219,6 +223,21 @@ func scaleDoc(family string, n, m int) string {
 		sb.WriteString("{ ... on T0 { v } }")
 		sb.WriteString(strings.Repeat(" }", n))
 		sb.WriteString(" }")
+	case "chainvar": // a chain whose every fragment is spread at two sites, with a variable-driven directive on every leaf
+		sb.WriteString("query($s: Boolean = true) { ...F0 }")
+		for i := 0; i < n; i++ {
+			fmt.Fprintf(&sb, " fragment F%d on Q { a @include(if: $s) ", i)
+			if i+1 < n {
+				fmt.Fprintf(&sb, "...F%d ... on Q { ...F%d } ", i+1, i+1)
+			}
+			sb.WriteString("}")
+		}
+	case "fanvar": // one fragment with variable-driven directives spread at n sites, directly and below a field
+		sb.WriteString("query($s: Boolean = true) { ")
+		for i := 0; i < n; i++ {
+			sb.WriteString("...F q { ...F } ")
+		}
+		sb.WriteString("} fragment F on Q { a @include(if: $s) b @skip(if: $s) ...G } fragment G on Q { b @include(if: $s) }")
 	case "wide": // n distinct aliases
 		sb.WriteString("{ ")
 		for i := 0; i < n; i++ {
@@ -229,7 +248,7 @@ func scaleDoc(family string, n, m int) string {
 	return sb.String()
 }
 
-var scaleFamilies = []string{"conds", "uniondepth", "sparse", "depth", "chain", "fan", "dag", "nestdag", "repeat", "litdeep", "litwide", "exclusive", "wide"}
+var scaleFamilies = []string{"chainvar", "fanvar", "conds", "uniondepth", "sparse", "depth", "chain", "fan", "dag", "nestdag", "repeat", "litdeep", "litwide", "exclusive", "wide"}
 
 type scaleMeasure struct {
 	validate, plan, exec uint64
@@ -237,6 +256,16 @@ type scaleMeasure struct {
 	abstractPlanned      uint64
 	reexec               uint64 // planning steps of a second execution of the same plan
 	abstractSeen         int
+	alloc                uint64 // bytes allocated while validating, planning and executing once (work the step counters do not see)
+}
+
+// allocCap bounds the bytes one measurement may allocate (the largest on the unchanged tree allocates a few MB).
+const allocCap = 1 << 30
+
+func allocatedBytes() uint64 {
+	var ms runtime.MemStats
+	runtime.ReadMemStats(&ms)
+	return ms.TotalAlloc
 }
 
 // stepCap bounds one measurement: work beyond it is not waited for (an exponential blow-up
@@ -245,11 +274,14 @@ const stepCap = 30_000_000
 
 // stallLimit: wall-clock bound of one measurement (a backstop, not the oracle: growth is judged
 // on step counts).
-const stallLimit = 120 * time.Second
+const stallLimit = 60 * time.Second
 
-type errStepCap struct{ steps uint64 }
+type errStepCap struct{ steps, alloc uint64 }
 
 func (e errStepCap) Error() string {
+	if e.alloc > 0 {
+		return fmt.Sprintf("allocated %d MB (%d steps counted) and was abandoned", e.alloc>>20, e.steps)
+	}
 	if e.steps <= stepCap {
 		return fmt.Sprintf("did not finish within %v (%d steps counted) and was abandoned", stallLimit, e.steps)
 	}
@@ -280,18 +312,24 @@ func measure(b *build.Built, w *ref.World, text string) (scaleMeasure, error) {
 	tick := time.NewTicker(5 * time.Millisecond)
 	defer tick.Stop()
 	start := time.Now()
-	for {
+	alloc0 := allocatedBytes()
+	for k := 0; ; k++ {
 		select {
 		case o := <-ch:
 			return o.sm, o.err
 		case <-tick.C:
 			if n := totalSteps(); n > stepCap {
-				return scaleMeasure{}, errStepCap{n}
+				return scaleMeasure{}, errStepCap{steps: n}
+			}
+			if k%20 == 19 {
+				if a := allocatedBytes() - alloc0; a > allocCap {
+					return scaleMeasure{}, errStepCap{steps: totalSteps(), alloc: a}
+				}
 			}
 			// work the counters do not see: the largest measurement on the unchanged tree takes
 			// milliseconds, so minutes mean it will not finish
 			if time.Since(start) > stallLimit {
-				return scaleMeasure{}, errStepCap{totalSteps()}
+				return scaleMeasure{}, errStepCap{steps: totalSteps()}
 			}
 		}
 	}
@@ -302,6 +340,7 @@ func measureUnbounded(b *build.Built, w *ref.World, text string) (sm scaleMeasur
 	if perr != nil {
 		return sm, perr
 	}
+	alloc0 := allocatedBytes()
 	graphql.VerifResetSteps()
 	vr := graphql.ValidateDocument(&b.Schema, doc, nil)
 	if !vr.IsValid {
@@ -327,12 +366,14 @@ func measureUnbounded(b *build.Built, w *ref.World, text string) (sm scaleMeasur
 		sm.exec += x
 	}
 	sm.abstractPlanned = e[graphql.VerifSiteAbstractPlanned]
+	sm.alloc = allocatedBytes() - alloc0
 	// the same plan, the same values, once more: every runtime type was encountered before
 	graphql.VerifResetSteps()
 	graphql.ExecutePlan(plan, graphql.ExecuteParams{Schema: b.Schema, Context: build.WithSession(nil, &build.Session{W: w})})
-	for _, x := range graphql.VerifSteps() {
-		sm.reexec += x
-	}
+	// planning sites only: evaluating the conditions of variable-driven directives (to pick the plan's variant) coerces
+	// one literal or variable per directive in every execution, which is not planning
+	re := graphql.VerifSteps()
+	sm.reexec = re[graphql.VerifSiteCollectSelection] + re[graphql.VerifSitePlanMerged] + re[graphql.VerifSiteAbstractPlanned] + re[graphql.VerifSitePossibleTypeScan]
 	// how many (abstract position, runtime type) pairs did the response really contain?
 	seen := map[string]bool{}
 	var walk func(x interface{}, path string)
@@ -353,6 +394,24 @@ func measureUnbounded(b *build.Built, w *ref.World, text string) (sm scaleMeasur
 	return sm, nil
 }
 
+// allocGrowth compares the bytes allocated by two consecutive measurements of a ladder whose size grows by at most 2:
+// a polynomial of degree 4 grows by 16, and small measurements are dominated by fixed costs (8 MB of slack).
+func allocGrowth(prev *uint64, now uint64, comparable bool) string {
+	p := *prev
+	*prev = now
+	if comparable && p > 0 && float64(now) > 16*float64(p)+float64(8<<20) {
+		return fmt.Sprintf("validating, planning and executing allocated %d KB at the smaller size and %d KB at the larger (x%.1f; quartic growth gives x16 for a doubling)", p>>10, now>>10, float64(now)/float64(p))
+	}
+	return ""
+}
+
+func m0(_ string, c *ScaleCase) int {
+	if c.M == 0 {
+		return 4
+	}
+	return c.M
+}
+
 func c19Ladder(c *ScaleCase, sizes []int) (msg string, series []uint64) {
 	m := c.M
 	if m == 0 {
@@ -362,7 +421,7 @@ func c19Ladder(c *ScaleCase, sizes []int) (msg string, series []uint64) {
 	if err != nil {
 		return "HARNESS: " + err.Error(), nil
 	}
-	var prev uint64
+	var prev, prevAlloc uint64
 	var base float64
 	for i, n := range sizes {
 		sm, err := measure(b, w, scaleDoc(c.Family, n, m))
@@ -374,6 +433,9 @@ func c19Ladder(c *ScaleCase, sizes []int) (msg string, series []uint64) {
 		}
 		total := sm.validate + sm.plan + sm.exec
 		series = append(series, total)
+		if m := allocGrowth(&prevAlloc, sm.alloc, i > 0 && sizes[i] <= 2*sizes[max(i-1, 0)]); m != "" {
+			return fmt.Sprintf("family %s (m=%d) between n=%d and n=%d: %s", c.Family, m0(m, c), sizes[max(i-1, 0)], n, m), series
+		}
 		if sm.reexec > 0 {
 			return fmt.Sprintf("family %s (m=%d) at n=%d: executing the same plan a second time did %d planning steps: runtime types that were already encountered are planned again", c.Family, m, n, sm.reexec), series
 		}
